@@ -5,7 +5,7 @@
    share nothing is checked by the correspondence (identity tests, alternating suffixes). *)
 From Coq Require Import List Arith Bool.
 Import ListNotations.
-From PySM Require Import Impl.Engine Impl.Registry Impl.History Impl.Process Proofs.EngineProofs Proofs.CopyProofs Proofs.ProcessProofs.
+From PySM Require Import Impl.Engine Impl.Registry Impl.History Impl.Process Proofs.EngineProofs Proofs.CopyProofs Proofs.ProcessProofs Proofs.RegroupRefuted.
 
 (* a clone taken at any idle point of a sync machine that has a state IS the original's
    configuration: same stored state, same call history, nothing queued, lock free *)
@@ -49,6 +49,15 @@ Theorem C17_clone_responds_like_original :
     tl (run_ops beh md (S f) (OClone :: ops) c) = run_ops beh md (S f) ops c.
 Proof. exact clone_then_suffix_equals_suffix. Qed.
 Print Assumptions C17_clone_responds_like_original.
+
+(* without the single-round hypothesis the statement is false of the faithful model (deviation D25, known
+   finding, replayed on the real library by the check): an `unless` guard name provided by the model and
+   by a listener attached later regroups on the clone, which then fires an event its original refuses *)
+Theorem C17_clone_responds_like_original_refuted :
+  exists md ops,
+    tl (map o_out (run_ops says md 10 (OClone :: ops) at_closed)) <> map o_out (run_ops says md 10 ops at_closed).
+Proof. exact clone_responds_like_original_refuted. Qed.
+Print Assumptions C17_clone_responds_like_original_refuted.
 
 (* independence: original and clone are two objects of the process; driving one - any operations, in
    any interleaving with the other's - never changes what the other returns, raises, stores or logs,
